@@ -369,6 +369,16 @@ GROUPS = {
         functions=['TransportsSender::poll_send', 'IpTransports::{bind, create_sender}', 'IpTransportsSender accessors (pulled in on demand)', 'IpSender::{is_valid_send_addr, is_valid_default_addr}',
                    'ip::Config::{is_ipv4, is_ipv6, prefix_len, is_default, is_required, is_valid_send_addr, is_valid_default_addr}'],
     ),
+    # second line behind the Verus unit captive_portal and the Kani harness (C13)
+    'captive_portal_bx': dict(
+        unit='captive_portal.rs', props=['C13'],
+        bounds=dict(quick=['2', '0'], thorough=['3', '0']),
+        space='requests without the challenge header, with an empty one, with EVERY header value of at most {0} bytes (all byte values a header value can hold), with every '
+              'length 0..=70 of allowed characters, and with every single-byte substitution (all byte values) at the first, a middle and the last position of well-formed '
+              'challenges of length 1, 2, 32, 62, 63 and of length 64; the response (status, X-Iroh-Response header) is compared with the stated rule',
+        nontrivial='challenges of at least two bytes',
+        functions=['serve_no_content_handler', 'is_challenge_char'],
+    ),
     # second line behind the Verus unit hooks
     'hooks_bx': dict(
         unit='hooks.rs', props=['C42'],
